@@ -23,10 +23,11 @@ type limitCase struct {
 	FailErr  int   // which error value the source fails with (index into vk.FaultErrors)
 	FailOnce bool  // the error comes from one Read call only
 	Consumer []int // nil: io.ReadAll; [-1]: io.Copy
+	CloseErr bool  // the source's Close reports an error (the call is counted all the same)
 }
 
 func (c limitCase) String() string {
-	return fmt.Sprintf("limit{N=%d len=%d chunks=%v eofWith=%v failAt=%d failWith=%v failErr=%d failOnce=%v consumer=%v}", c.N, c.Len, c.Chunks, c.EOFWith, c.FailAt, c.FailWith, c.FailErr, c.FailOnce, c.Consumer)
+	return fmt.Sprintf("limit{N=%d len=%d chunks=%v eofWith=%v failAt=%d failWith=%v failErr=%d failOnce=%v consumer=%v closeErr=%v}", c.N, c.Len, c.Chunks, c.EOFWith, c.FailAt, c.FailWith, c.FailErr, c.FailOnce, c.Consumer, c.CloseErr)
 }
 
 func data(n int, salt byte) []byte {
@@ -55,6 +56,9 @@ func checkLimit(c limitCase) string {
 	d := data(c.Len, 0x5a)
 	injected := vk.FaultErrors[c.FailErr%len(vk.FaultErrors)]
 	src := &vk.ScriptReader{Data: d, Chunks: c.Chunks, EOFWith: c.EOFWith, FailAt: c.FailAt, FailWith: c.FailWith, FailOnce: c.FailOnce, Err: injected}
+	if c.CloseErr {
+		src.CloseErr = errSrcClose
+	}
 	lr := streams.LimitReadCloser(src, c.N)
 	out, err := consume(lr, c.Consumer)
 	faulty := c.FailAt >= 0 && c.FailAt <= c.Len
@@ -109,16 +113,9 @@ func checkLimit(c limitCase) string {
 			return fmt.Sprintf("unexpected error %v", err)
 		}
 	}
-	// Close: the source ends up closed exactly once, and a second Close changes nothing.
-	_ = lr.Close()
-	if src.Closes != 1 {
-		return fmt.Sprintf("after Close the source was closed %d times, want exactly 1", src.Closes)
-	}
-	_ = lr.Close()
-	if src.Closes != 1 {
-		return fmt.Sprintf("second Close closed the source again (%d)", src.Closes)
-	}
-	return ""
+	// Close - three times, whatever the source's Close reports, with a Read after each call: the source ends up closed
+	// exactly once and is not read after that.
+	return closeRepeatedly(lr, 3, true, []*vk.ScriptReader{src}, nil)
 }
 
 func compositions(n int) [][]int {
@@ -178,7 +175,7 @@ func runLimitGrid(t *testing.T, sec *vk.Section, maxN int, exhaustive bool) {
 							if !vk.Mine(idx) {
 								continue
 							}
-							c := limitCase{N: int64(N), Len: L, Chunks: chunks, EOFWith: eofWith, FailAt: -1, Consumer: cons}
+							c := limitCase{N: int64(N), Len: L, Chunks: chunks, EOFWith: eofWith, FailAt: -1, Consumer: cons, CloseErr: idx%4 == 1}
 							if msg := checkLimit(c); msg != "" {
 								t.Fatalf("C16 limit violated: %s\ncase: %s", msg, c)
 							}
@@ -243,6 +240,7 @@ func TestLimitRapid(t *testing.T) {
 		default:
 			c.Consumer = rapid.SliceOfN(rapid.IntRange(1, N+3), 1, 4).Draw(rt, "bufs")
 		}
+		c.CloseErr = rapid.IntRange(0, 3).Draw(rt, "closeErr") == 0
 		if msg := checkLimit(c); msg != "" {
 			rt.Fatalf("C16 limit violated: %s\ncase: %s", msg, c)
 		}
@@ -253,7 +251,11 @@ func TestLimitRapid(t *testing.T) {
 		} else if L > N {
 			cls = "oversize"
 		}
-		sec.Case(nt, vk.FP(c.String()), "limit."+cls)
+		classes := []string{"limit." + cls}
+		if c.CloseErr {
+			classes = append(classes, "limit.sourceCloseErr")
+		}
+		sec.Case(nt, vk.FP(c.String()), classes...)
 		sec.Sample(func() any { return c.String() })
 	})
 }
